@@ -80,27 +80,53 @@ var fnameVariants = []struct {
 	{"getterWrongType", "Name string", "func (s *T) NAME() int { return 1 }"},
 	{"embedded", "Emb", ""},
 	{"none", "Other string", ""},
+	// :stringer candidates (destination Name string): value / pointer receiver String(), offered by field or by getter
+	{"strFieldStatus", "Name Status", ""},
+	{"strFieldPStatus", "Name PStatus", ""},
+	{"strGetterStatus", "n Status", "func (s *T) Name() Status { return s.n }"},
+	{"strGetterPStatus", "n PStatus", "func (s *T) Name() PStatus { return s.n }"},
+	{"strGetterPtrPStatus", "n PStatus", "func (s *T) Name() *PStatus { return &s.n }"},
 }
+
+// decoyInterface is a second converter interface that carries every interface-level
+// notation and sorts before "Convergen": nothing of it may leak into the interface under test.
+const decoyInterface = `type S0 struct{ A int }
+
+type D0 struct{ A int }
+
+// :convergen
+// :typecast
+// :stringer
+// :getter
+// :case:off
+type Aaa interface {
+	Decoy(*S0) *D0
+}
+`
 
 func familyFName(thorough bool) []*scen.Cell {
 	var cells []*scen.Cell
 	for _, v := range fnameVariants {
 		for imp := 0; imp < 2; imp++ {
 			for srcPtr := 0; srcPtr < 2; srcPtr++ {
-				scen.Odometer([]int{2, 2, 1, 1, 2}, func(d []int) {
+				strR := 1
+				if strings.HasPrefix(v.id, "str") {
+					strR = 2
+				}
+				scen.Odometer([]int{2, 2, strR, 1, 2}, func(d []int) {
 					tog := append([]int(nil), d...)
 					files := map[string]string{}
 					srcT := "S"
-					body := "type Emb struct{ Name string }\n\ntype T struct {\n\t" + v.fields + "\n}\n\n" + v.methods + "\n"
+					body := "type Emb struct{ Name string }\n\ntype Status int\n\nfunc (s Status) String() string { return \"status\" }\n\ntype PStatus int\n\nfunc (s *PStatus) String() string { return \"pstatus\" }\n\ntype T struct {\n\t" + v.fields + "\n}\n\n" + v.methods + "\n"
 					var decls string
 					if imp == 1 {
 						// the source type lives in a sub-package of the cell
 						files["sub/sub.go"] = "package sub\n\n" + body
 						srcT = "sub.T"
-						decls = "type D struct {\n\tName string\n}\n"
+						decls = "type D struct {\n\tName string\n}\n\n" + decoyInterface
 					} else {
 						decls = strings.ReplaceAll(body, "T", "S") + "\ntype D struct {\n\tName string\n}\n"
-						decls = strings.ReplaceAll(decls, "type Emb", "type Emb") // keep
+						decls += "\n" + decoyInterface
 					}
 					if srcPtr == 1 {
 						srcT = "*" + srcT
@@ -206,7 +232,7 @@ func familyF3(thorough bool) []*scen.Cell {
 					if emb == 1 {
 						dn, sn = sd.expr, ss.expr
 					}
-					decls := f3Prelude + "\ntype S struct {\n\t" + sn + "\n\tK int\n}\n\ntype D struct {\n\t" + dn + "\n\tK int\n}\n"
+					decls := f3Prelude + "\ntype S struct {\n\t" + sn + "\n\tK int\n}\n\ntype D struct {\n\t" + dn + "\n\tK int\n}\n\n" + decoyInterface
 					setup := scen.SetupFile(true, decls, nil, []scen.MethodDecl{{
 						Notations: scen.Toggles(tog[0], tog[1], tog[2], tog[3], tog[4]),
 						Sig:       "Conv(*S) *D",
@@ -419,7 +445,36 @@ func familyF4(thorough bool) []*scen.Cell {
 	scen.Odometer([]int{len(pats), 2, 2, len(comp)}, func(d []int) {
 		notes := append([]string{":skip " + pats[d[0]]}, comp[d[3]]...)
 		add(f4Cell("f4skip_"+scen.DigitsID(d), "skip", notes, 0, 0, d[2], d[1], nil))
+		if d[1] == 1 && d[3] == 0 {
+			// the :skip line written BEFORE the :case:off line: the method's (final) case rule still governs it
+			c := f4Cell("f4skipfirst_"+scen.DigitsID(d), "skip", append(notes, ":case:off"), 0, 0, d[2], 0, nil)
+			add(c)
+			// and interface-level :case:off with a method-level :skip followed by :case
+			c2 := f4Cell("f4skipcase_"+scen.DigitsID(d), "skip", append(notes, ":case"), 0, 0, d[2], 0, nil)
+			c2.Files["setup.go"] = strings.Replace(c2.Files["setup.go"], "type Convergen interface {", "// :case:off\ntype Convergen interface {", 1)
+			add(c2)
+		}
 	})
+	// ---- :conv naming a function generated for ANOTHER converter interface, in both name orders
+	for i, other := range []string{"Aother", "Zother"} {
+		for err := 0; err < 2; err++ {
+			decl := strings.Replace(f4Decls, "\tQ N\n}", "\tQ N\n\tR *AA\n}", 1)
+			sig := map[int]string{0: "Conv(*S) *D", 1: "Conv(*S) (*D, error)"}[err]
+			setup := scen.SetupFile(true, decl, nil, []scen.MethodDecl{{Notations: []string{":conv GenP P R"}, Sig: sig}})
+			setup += "\n// :convergen\ntype " + other + " interface {\n\tGenP(*PT) *AA\n}\n"
+			add(&scen.Cell{ID: fmt.Sprintf("f4xintf_%d_%d", i, err), Family: "F4-conv-generated", Files: map[string]string{"setup.go": setup},
+				Meta: f4Meta{Kind: "conv", Line: ":conv GenP P R", Err: err, Extra: "generated in interface " + other}})
+		}
+	}
+	// ---- explicit notations that name a member of an IMPORTED destination type the package cannot see
+	for i, n := range []string{":map A y", ":literal y 1", ":conv I2I A y", ":skip y", ":map A X", ":map A In.x", ":literal In.x 1", ":map A In.X"} {
+		for _, dt := range []string{"ext.Inner", "ext.Anon"} {
+			decl := "type S struct {\n\tA int\n\tX int\n}\n\nfunc I2I(i int) int { return i }\n"
+			setup := scen.SetupFile(true, decl, nil, []scen.MethodDecl{{Notations: []string{n}, Sig: "Conv(*S) *" + dt}})
+			add(&scen.Cell{ID: fmt.Sprintf("f4imp_%d_%s", i, strings.TrimPrefix(dt, "ext.")), Family: "F4-imported-destination", Files: map[string]string{"setup.go": setup},
+				Meta: f4Meta{Kind: strings.Fields(n)[0][1:], Line: n, Extra: dt}})
+		}
+	}
 	// ---- :literal dims: dst, text, case, competing
 	texts := []string{"7", `"s"`, "I2I(3)", "ext.Itoa(1)", "src.A", "N{A: 1}", "nil", "1 + 2"}
 	scen.Odometer([]int{len(f4Dst), len(texts), 2, 2}, func(d []int) {
@@ -716,5 +771,47 @@ func familyF6(thorough bool) []*scen.Cell {
 			cells = append(cells, c)
 		}
 	})
+	return cells
+}
+
+// ---------------------------------------------------------------------------
+// F3-pairs — two methods in one run whose struct shapes collide textually
+// (local vs imported anonymous structs, exported/unexported members): per-run
+// caches keyed by a type's text must not let one method decide for the other.
+
+var f3PairShapes = []int{1, 5, 8, 9, 10, 15, 16} // inner, anonMixed, extInner, extAnon, extG, locInner, locAnon
+
+func familyF3Pairs() []*scen.Cell {
+	var cells []*scen.Cell
+	type pair struct{ d, s int }
+	var pairs []pair
+	for _, d := range f3PairShapes {
+		for _, s := range f3PairShapes {
+			pairs = append(pairs, pair{d, s})
+		}
+	}
+	for i, a := range pairs {
+		for j, b := range pairs {
+			if i == j {
+				continue
+			}
+			// keep the product small: the second method's shapes must share a category (anon / unexported) with the first's
+			anonA := strings.Contains(f3Shapes[a.d].id+f3Shapes[a.s].id, "non") || strings.Contains(f3Shapes[a.d].id+f3Shapes[a.s].id, "Anon")
+			anonB := strings.Contains(f3Shapes[b.d].id+f3Shapes[b.s].id, "non") || strings.Contains(f3Shapes[b.d].id+f3Shapes[b.s].id, "Anon")
+			if !(anonA && anonB) && (i+j)%7 != 0 {
+				continue
+			}
+			decls := f3Prelude +
+				"\ntype S1 struct {\n\tN " + f3Shapes[a.s].expr + "\n\tK int\n}\n\ntype D1 struct {\n\tN " + f3Shapes[a.d].expr + "\n\tK int\n}\n" +
+				"\ntype S2 struct {\n\tN " + f3Shapes[b.s].expr + "\n\tK int\n}\n\ntype D2 struct {\n\tN " + f3Shapes[b.d].expr + "\n\tK int\n}\n"
+			setup := scen.SetupFile(true, decls, nil, []scen.MethodDecl{{Sig: "Afirst(*S1) *D1"}, {Sig: "Bsecond(*S2) *D2"}})
+			cells = append(cells, &scen.Cell{
+				ID:     fmt.Sprintf("f3p_%s_%s__%s_%s", f3Shapes[a.d].id, f3Shapes[a.s].id, f3Shapes[b.d].id, f3Shapes[b.s].id),
+				Family: "F3-pairs",
+				Files:  map[string]string{"setup.go": setup},
+				Meta:   f3Meta{Dst: f3Shapes[a.d].id + "+" + f3Shapes[b.d].id, Src: f3Shapes[a.s].id + "+" + f3Shapes[b.s].id},
+			})
+		}
+	}
 	return cells
 }
